@@ -68,6 +68,9 @@ var chainTable = []chainInfo{
 	{"c6", "L6", nil},         // leaf under R1 with serverAuth EKU only
 	{"c7", "L7", []int{2}},    // leaf under R2 without any EKU
 	{"c8", "L0", []int{0}},    // leaf under R0 followed by an unrelated certificate
+	{"c9", "L9", nil},         // clientAuth leaf under an intermediate of R0 that is restricted to serverAuth (supplied)
+	{"c10", "L10", []int{0}},  // clientAuth leaf under an intermediate of R0 that allows clientAuth (supplied)
+	{"c11", "L11", nil},       // leaf without EKU under the serverAuth-only intermediate (supplied)
 }
 
 func chainByID(id string) *chainInfo {
@@ -81,6 +84,7 @@ func chainByID(id string) *chainInfo {
 
 type universe struct {
 	anchors [4]*x509.Certificate
+	subCAs  map[string]*x509.Certificate // I1 (serverAuth only), I2 (clientAuth): subordinate CAs of R0 that are never anchors
 	leaves  map[string]*x509.Certificate
 	chains  map[string][]*x509.Certificate
 	fp      map[string]string // leaf name -> hex fingerprint
@@ -166,6 +170,31 @@ func getUniverse() *universe {
 		})
 		leaf("L6", 1, func(t *x509.Certificate) { t.ExtKeyUsage = []x509.ExtKeyUsage{x509.ExtKeyUsageServerAuth} })
 		leaf("L7", 2, func(t *x509.Certificate) { t.ExtKeyUsage = nil })
+		// subordinate CAs of R0 with an EKU restriction of their own (EKU nesting: the whole path must allow the usage)
+		subCA := func(cn string, eku x509.ExtKeyUsage) (*x509.Certificate, *ecdsa.PrivateKey) {
+			k := newKey()
+			t := tmpl(cn, true)
+			t.ExtKeyUsage = []x509.ExtKeyUsage{eku}
+			return mkCert(t, u.anchors[0], &k.PublicKey, akeys[0]), k
+		}
+		leafUnder := func(name string, ca *x509.Certificate, cak *ecdsa.PrivateKey, eku []x509.ExtKeyUsage) {
+			k := newKey()
+			t := tmpl(name, false)
+			t.ExtKeyUsage = eku
+			c := mkCert(t, ca, &k.PublicKey, cak)
+			u.leaves[name] = c
+			d := sha256.Sum256(c.RawSubjectPublicKeyInfo)
+			u.fp[name] = hex.EncodeToString(d[:])
+		}
+		srvCA, srvKey := subCA("I1 server certificates only", x509.ExtKeyUsageServerAuth)
+		cliCA, cliKey := subCA("I2 client certificates", x509.ExtKeyUsageClientAuth)
+		leafUnder("L9", srvCA, srvKey, []x509.ExtKeyUsage{x509.ExtKeyUsageClientAuth})
+		leafUnder("L10", cliCA, cliKey, []x509.ExtKeyUsage{x509.ExtKeyUsageClientAuth})
+		leafUnder("L11", srvCA, srvKey, nil)
+		u.subCAs = map[string]*x509.Certificate{"I1": srvCA, "I2": cliCA}
+		u.chains["c9"] = []*x509.Certificate{u.leaves["L9"], srvCA}
+		u.chains["c10"] = []*x509.Certificate{u.leaves["L10"], cliCA}
+		u.chains["c11"] = []*x509.Certificate{u.leaves["L11"], srvCA}
 		u.chains["c0"] = []*x509.Certificate{u.leaves["L0"]}
 		u.chains["c1"] = []*x509.Certificate{u.leaves["L1"]}
 		u.chains["c2"] = []*x509.Certificate{u.leaves["L2"], u.anchors[3]}
